@@ -375,6 +375,7 @@ pub fn run_level_b(
     let mut extra: Vec<Mismatch> = Vec::new();
     let mut harness_notes: Vec<String> = Vec::new();
     let mut foreign_requests = 0usize;
+    let mut symlinks = 0usize;
 
     // ---- the tree (creation order from the plan)
     let use_git = plan.create_seed % 4 == 0 && !world.is_terminal();
@@ -429,9 +430,28 @@ pub fn run_level_b(
         }
         for &i in &order {
             let f = &world.files[i];
-            if !matches!(f.diff, FileDiff::Deleted) {
-                write_file(&root, &f.path, &rendered[i].text);
+            if matches!(f.diff, FileDiff::Deleted) {
+                continue;
             }
+            // how a file is stored is not part of the input: now and then a file the diff does not
+            // mention is a symbolic link to a regular file kept in a hidden directory
+            let as_link = matches!(f.diff, FileDiff::None)
+                && Rng::new(plan.create_seed ^ (i as u64).wrapping_mul(0x9e37_79b9)).chance(1, 8);
+            if as_link {
+                let store = format!(".bwstore/f{i}");
+                write_file(&root, &store, &rendered[i].text);
+                let link = root.join(&f.path);
+                if let Some(d) = link.parent() {
+                    let _ = std::fs::create_dir_all(d);
+                }
+                let depth = f.path.matches('/').count();
+                let target = format!("{}{}", "../".repeat(depth), store);
+                if std::os::unix::fs::symlink(&target, &link).is_ok() {
+                    symlinks += 1;
+                    continue;
+                }
+            }
+            write_file(&root, &f.path, &rendered[i].text);
         }
     }
     if !world.gitignore.is_empty() {
@@ -644,12 +664,15 @@ pub fn run_level_b(
             git_diff.is_some()
         ))
         .or_default() += 1;
+        if symlinks > 0 {
+            *m.entry("runs_with_symlinked_files".to_string()).or_default() += 1;
+        }
     }
     let mut v = serde_json::to_value(&rr).unwrap_or_default();
     v["level_b"] = serde_json::json!({
         "exit_code": exit_code, "stdout": tail(&stdout_s), "stderr": tail(&stderr_s),
         "cwd": cwd_rel, "cores": cores, "workers": plan.workers.max(1), "git_diff": git_diff.is_some(),
-        "stdin": stdin_text, "harness_notes": harness_notes.clone(), "foreign_requests_ignored": foreign_requests,
+        "stdin": stdin_text, "harness_notes": harness_notes.clone(), "foreign_requests_ignored": foreign_requests, "symlinked_files": symlinks,
     });
     let _ = std::fs::remove_dir_all(&base);
     ChildReport {
